@@ -35,9 +35,9 @@ SHARDS = {"quick": 4, "thorough": 16}
 RULE = (
     "Hypothesis draws annotations: category in 34 exported + 3 importable user categories; array type in {np.ndarray, Any, jax.Array, "
     "duck class, Union of two of them, a nested annotation (inner category x inner spec)}; spec of 0..4 constructed legal tokens incl. "
-    "'_', '...', '*name', '#', symbolic. Routes: pickle protocol 0..5, cloudpickle, copy, deepcopy in-process; pickle and cloudpickle "
+    "'_', '...', '*name', bare '*', '#', symbolic. Routes: pickle protocol 0..5, cloudpickle, copy, deepcopy in-process; pickle and cloudpickle "
     "payloads are additionally loaded and evaluated in one fresh subprocess per shard. Probe set: 9 dtypes x 9 shapes on ndarray + duck + "
-    "jax arrays + 4 non-arrays, each in a fresh context and after a prior binding. Non-trivial = nested annotation whose effective dtypes "
+    "jax arrays + 4 non-arrays, each in a fresh context and after a prior binding, plus 7 shape pairs x 2 dtypes checked one after the other in one context (binding behaviour). Non-trivial = nested annotation whose effective dtypes "
     "differ from the outer category, or a spec with '_' / '...' (identity-compared sentinels), or a cross-process route; distinct by "
     "(annotation, route)."
 )
@@ -50,6 +50,7 @@ CATS = list(dt.CATEGORIES)
 USER = ["UInt8or16", "FloatRe", "Mixed"]
 PROBE_DTYPES = ["bool", "int8", "uint8", "uint16", "int32", "float16", "float32", "float64", "complex64"]
 PROBE_SHAPES = [(), (1,), (3,), (4,), (3, 4), (1, 4), (3, 1), (2, 3, 4), (3, 3)]
+PAIR_SHAPES = [((3,), (4,)), ((3, 4), (3, 5)), ((2, 3), (4, 3)), ((1, 4), (2, 4)), ((3, 4), (2, 3, 4)), ((2, 2), (3, 3)), ((3, 4), (3, 4))]
 ROUTES = ["pickle0", "pickle1", "pickle2", "pickle3", "pickle4", "pickle5", "cloudpickle", "copy", "deepcopy"]
 
 
@@ -120,7 +121,24 @@ def vector(ann):
                 for a in ms:
                     res.append(obs.verdict(v, a))
                 out.append("|".join(res))
+    # binding behaviour: two checks in one context -- the second verdict depends on what the first one bound
+    for s1, s2 in PAIR_SHAPES:
+        for d in ("float32", "int8"):
+            with jaxtyped("context"):
+                res = []
+                for a in ms:
+                    res.append(obs.verdict(np.zeros(s1, dtype=d), a) + ">" + obs.verdict(np.zeros(s2, dtype=d), a))
+                out.append("|".join(res))
     return out
+
+
+def probe_label(i):
+    n = len(probes())
+    if i < 2 * n:
+        return f"probe #{i % n} ({'prior' if i >= n else 'fresh'} context, {probe_repr(i % n)})"
+    j = i - 2 * n
+    s1, s2 = PAIR_SHAPES[j // 2]
+    return f"pair probe: ndarray {s1} then ndarray {s2} in one context, dtype {('float32', 'int8')[j % 2]}"
 
 
 def roundtrip(ann, route):
@@ -166,12 +184,12 @@ def check_case(ctx, desc, routes, cross=None):
         if v0b != v0:
             i = next(i for i, (x, y) in enumerate(zip(v0, v0b)) if x != y)
             raise Violation("original-changed", dict(desc, route=route),
-                            f"after {route}, the ORIGINAL {describe(desc)} answers differently on probe #{i}: {v0[i]} -> {v0b[i]}")
+                            f"after {route}, the ORIGINAL {describe(desc)} answers differently on {probe_label(i)}: {v0[i]} -> {v0b[i]}")
         if v1 != v0:
             i = next(i for i, (x, y) in enumerate(zip(v0, v1)) if x != y)
             n = len(probes())
             raise Violation("meaning-changed", dict(desc, route=route),
-                            f"{route}: reconstructed {describe(desc)} differs on probe #{i % n} ({'prior' if i >= n else 'fresh'} context, {probe_repr(i % n)}): original {v0[i]}, reconstructed {v1[i]}")
+                            f"{route}: reconstructed {describe(desc)} differs on {probe_label(i)}: original {v0[i]}, reconstructed {v1[i]}")
         ctx.note([desc, route], narrowed or sentinel, classes=[f"route-{route}", f"at-{desc['at'][0]}"] + (["narrowed-nested"] if narrowed else []) + (["sentinel-axis"] if sentinel else []),
                  sample={"annotation": describe(desc), "route": route})
     if cross is not None:
@@ -183,6 +201,47 @@ def check_case(ctx, desc, routes, cross=None):
             except BaseException as e:  # noqa: BLE001
                 raise Violation("roundtrip-raised", dict(desc, route=route), f"dumping {describe(desc)} for {route} raised {type(e).__name__}: {e}")
             cross.append({"desc": desc, "route": route, "payload": base64.b64encode(payload).decode(), "vector": v0})
+
+
+_stale_counter = [0]
+
+
+def check_stale_payload(ctx, case):
+    import collections.abc
+    import warnings
+
+    import cloudpickle
+    import typeguard
+
+    _stale_counter[0] += 1
+    spec = f"vfstale{_stale_counter[0]}x{ctx.shard} " + case["spec"]
+    try:
+        ann = cat_obj(case["cat"])[np.ndarray, spec]
+    except ValueError:
+        return
+    dumps, loads = (cloudpickle.dumps, cloudpickle.loads) if case["route"] == "cloudpickle" else ((lambda a: pickle.dumps(a, protocol=int(case["route"][6:]))), pickle.loads)
+    blob = dumps(ann)
+    if case["use_between"]:
+        def gen():
+            yield np.zeros((3,))
+
+        gen.__annotations__ = {"return": collections.abc.Iterator[ann]}
+        with warnings.catch_warnings():
+            warnings.simplefilter("ignore")
+            jaxtyping.jaxtyped(typeguard.typechecked(gen))
+    before = vector(ann)
+    back = loads(blob)
+    after = vector(ann)
+    ctx.note(["stale", case["cat"], case["spec"], case["route"], case["use_between"]], case["use_between"], classes=["stale-payload", f"route-{case['route']}"],
+             sample={"annotation": f"{case['cat']}[ndarray, {spec!r}]", "route": case["route"], "used_between_dump_and_load": case["use_between"]})
+    if before != after:
+        i = next(i for i, (x, y) in enumerate(zip(before, after)) if x != y)
+        raise Violation("original-changed", dict(case, stale=True),
+                        f"loading a {case['route']} payload of {case['cat']}[ndarray, {spec!r}] dumped earlier changed what the ORIGINAL accepts "
+                        f"({probe_label(i)}: {before[i]} -> {after[i]}); used as a generator's return annotation in between: {case['use_between']}")
+    # (after the use in between the original is in the state described by the known finding of C12: only compared otherwise)
+    if not case["use_between"] and vector(back) != after:
+        raise Violation("meaning-changed", dict(case, stale=True), f"{case['route']} payload of {case['cat']}[ndarray, {spec!r}] loaded later differs from the original")
 
 
 def probe_repr(i):
@@ -236,7 +295,7 @@ def run_cross(ctx, cross):
         if r_["vector"] != c["vector"]:
             i = next(i for i, (x, y) in enumerate(zip(c["vector"], r_["vector"])) if x != y)
             ctx.record(Violation("meaning-changed", dict(c["desc"], route=c["route"]),
-                                 f"{c['route']}: {describe(c['desc'])} loaded in a fresh process differs on probe #{i % n} ({probe_repr(i % n)}): original {c['vector'][i]}, loaded {r_['vector'][i]}"))
+                                 f"{c['route']}: {describe(c['desc'])} loaded in a fresh process differs on {probe_label(i)}: original {c['vector'][i]}, loaded {r_['vector'][i]}"))
             return
 
 
@@ -266,6 +325,10 @@ def nested_focus(draw):
     where = draw(st.sampled_from(["inner", "outer", "none", "inner"]))
     t_in = draw(gd.legal_spec(max_axes=3, names=["a", "b"], vnames=["v"], multi_prob=0.95 if where == "inner" else 0.0))
     t_out = draw(gd.legal_spec(max_axes=2, names=["a", "b"], vnames=["v"], multi_prob=0.95 if where == "outer" else 0.0))
+    if where in ("inner", "outer") and draw(st.integers(0, 1)) == 0:
+        # a bare '*' (a named variadic axis whose name is the empty string -- it builds, and binds like any other name)
+        tl = t_in if where == "inner" else t_out
+        tl[:] = [dl.Token("*", "empty", None) if t.is_multi() else t for t in tl]
     if not t_out and draw(st.integers(0, 3)) != 0:
         # mostly a non-empty outer spec: then the nested annotation prints (and its dim_str reads) exactly like the flat one
         t_out = [dl.Token("", "name", draw(st.sampled_from(["b", "a"])))]
@@ -277,6 +340,8 @@ def c20_desc(draw):
     if draw(st.integers(0, 3)) == 0:
         return draw(nested_focus())
     toks = draw(gd.legal_spec(max_axes=4, bound=["a"], names=["a", "b"], vnames=["v"], multi_prob=0.45))
+    if draw(st.integers(0, 5)) == 0:
+        toks = [dl.Token("*", "empty", None) if t.is_multi() else t for t in toks]
     return {"cat": draw(st.sampled_from(["Shaped", "Float", "Num", "Inexact"] + CATS + USER)), "at": draw(array_type_desc()), "spec": dl.spec_spelling(toks)}
 
 
@@ -311,9 +376,20 @@ def run(ctx):
             if v1 != v0:
                 i = next(i for i, (x, y) in enumerate(zip(v0, v1)) if x != y)
                 raise Violation("meaning-changed", dict(d, route=route, lookalike_of=(desc if d is flat_desc else flat_desc), flat_first=flat_first),
-                                f"{route}: {describe(d)} loaded after its look-alike differs on probe {probe_repr(i % len(probes()))}: original {v0[i]}, reconstructed {v1[i]}")
+                                f"{route}: {describe(d)} loaded after its look-alike differs on {probe_label(i)}: original {v0[i]}, reconstructed {v1[i]}")
 
     ctx.hyp(lookalikes, max_examples=ctx.n(40, 300))
+
+    # a payload dumped earlier, loaded after the program went on using the annotation: loading must not touch the original.
+    # The use in between is the one public use that is known to change an annotation object (old-style decoration of a
+    # generator function, known finding of C12); each case gets an annotation class of its own (fresh axis name).
+    @given(st.sampled_from(["Float", "Shaped", "Int8", "Num"] + CATS), gd.legal_spec(max_axes=2, names=["a", "b"], vnames=["v"], multi_prob=0.3),
+           st.sampled_from(["cloudpickle", "pickle2", "cloudpickle", "pickle5"]), st.booleans())
+    def stale_payload(cat, toks, route, use_between):
+        obs.reset_state()
+        check_stale_payload(ctx, {"cat": cat, "spec": dl.spec_spelling(toks), "route": route, "use_between": use_between})
+
+    ctx.hyp(stale_payload, max_examples=ctx.n(30, 200))
     # loading in one thread while another thread builds / loads / uses annotations of the same category: the harness
     # owns the schedule (vf/sched.py), every thread must get what it gets alone
     from vf import sched
@@ -376,6 +452,9 @@ def replay(case, clause, ctx):
     try:
         if route == "threads":
             return None  # schedule-dependent: re-derived by the run (vf/sched.py schedules are drawn by Hypothesis)
+        if case.get("stale"):
+            check_stale_payload(ctx, dict(case, route=route))
+            return None
         if "lookalike_of" in case:
             other = case.pop("lookalike_of")
             flat_first = case.pop("flat_first", True)
